@@ -276,3 +276,52 @@ Proof.
   exists [(1%N, 3)]. eexists. eexists. split; [vm_compute; reflexivity|]. split; [vm_compute; reflexivity|].
   split; [vm_compute; reflexivity|]. split; vm_compute; discriminate.
 Qed.
+
+(* ------------------------------------------------------------------------------------------------------------ *)
+(* no warning (repaired code) => every volatile repetition count of the program is still there afterwards *)
+Fixpoint cvols (t : cprog) : list rep :=
+  match t with CNode r _ ch => (if is_vol r then [r] else []) ++ flat_map cvols ch end.
+
+Lemma cvols_novol : forall t, is_vol (crep t) = false -> has_vol_desc t = false -> cvols t = [].
+Proof.
+  induction t as [r w ch IH] using cprog_ind'. cbn [crep has_vol_desc cvols]. intros V D. rewrite V. cbn.
+  induction ch as [|c ch IHc]; [reflexivity|]. cbn in D |- *. apply orb_false_iff in D. destruct D as [D1 D2].
+  apply orb_false_iff in D1. destruct D1 as [Vc Dc]. inversion IH; subst. rewrite (H1 Vc Dc), (IHc H2 D2). reflexivity.
+Qed.
+
+Lemma mc_rec_keeps_vols al mn q : forall t t' tr,
+  is_vol (crep t) = false -> mc_rec true al mn q t = (t', false, tr) -> cvols t' = cvols t.
+Proof.
+  induction t as [r w ch IH] using cprog_ind'. intros t' tr V H. cbn [crep] in V.
+  destruct (match ch with [] => true | _ => false end) eqn:Em.
+  - destruct ch; [|discriminate]. cbn [mc_rec] in H. inversion H; subst. cbn [cvols flat_map is_vol app]. rewrite V. reflexivity.
+  - assert (NE : ch <> []) by (intros ->; discriminate). rewrite mc_rec_inner in H by exact NE. cbv zeta in H.
+    cbn [andb] in H.
+    destruct (existsb incompatible (map fst (map (is_compat al mn q) ch))).
+    + injection H as Ht Hw _. apply orb_false_iff in Hw. destruct Hw as [_ D]. subst t'.
+      rewrite (cvols_novol (CNode r w ch) V D). cbn [cvols flat_map]. rewrite app_nil_r.
+      match goal with |- context [is_vol (if ?k then r else Fixed 1)] => destruct k end; [rewrite V|]; reflexivity.
+    + injection H as Ht Hw _. apply orb_false_iff in Hw. destruct Hw as [W S]. subst t'. cbn [cvols]. f_equal.
+      clear NE Em. induction ch as [|c ch IHc]; [reflexivity|]. inversion IH as [|? ? Hc Hl]; subst.
+      cbn [map existsb] in W, S. apply orb_false_iff in W. destruct W as [Wc Wl]. apply orb_false_iff in S. destruct S as [Sc Sl].
+      cbn [map flat_map]. rewrite (IHc Hl Wl Sl). f_equal.
+      unfold mcF in *. destruct (is_compat al mn q c) as [lv wc] eqn:E. cbn [fst snd] in *. subst wc.
+      destruct lv; try reflexivity.
+      destruct (mc_rec true al mn q c) as [[c' w1] tr1] eqn:M1. cbn [fst snd] in *. subst w1.
+      eapply Hc; [eapply is_compat_action_novol; eauto|reflexivity].
+Qed.
+
+Lemma make_compatible_keeps_vols al mn q t t' tr :
+  make_compatible true al mn q t = Ok (t', false, tr) -> cvols t' = cvols t.
+Proof.
+  unfold make_compatible. destruct (is_compat al mn q t) as [lv w0] eqn:E. destruct lv; try discriminate.
+  - intros H; inversion H; subst. reflexivity.
+  - destruct (mc_rec true al mn q t) as [[c' w1] tr1] eqn:M. intros H. inversion H; subst.
+    apply orb_false_iff in H2. destruct H2 as [-> ->].
+    eapply mc_rec_keeps_vols; eauto. eapply is_compat_action_novol; eauto.
+Qed.
+
+(* the code as it is loses a volatile count without any warning (known finding) *)
+Lemma make_compatible_current_loses_count : exists t' tr,
+  make_compatible false ex_al 576 16 ex_mc_baked = Ok (t', false, tr) /\ cvols ex_mc_baked <> [] /\ cvols t' = [].
+Proof. eexists. eexists. split; [vm_compute; reflexivity|]. split; [vm_compute; discriminate|reflexivity]. Qed.
